@@ -182,8 +182,11 @@ static void esx_expand_item(uint64_t idx, void *ctx) {
     int n = esx_history(s, h);
     esx_cur = m;
     bool checked_canon = false;
+    static uint8_t en[65536]; /* enabled set of this state, computed once after the first replay (enabled() is pure) */
+    bool have_en = false;
     esx_make_token(m, h, n, -1);
     for (int o = 0; o < m->nops; ++o) {
+        if (have_en && !en[o]) continue;
         esx_failed = 0;
         esx_token_set_last(-1);
         m->reset();
@@ -211,7 +214,11 @@ static void esx_expand_item(uint64_t idx, void *ctx) {
             }
             checked_canon = true;
         }
-        if (m->enabled(o)) {
+        if (!have_en) {
+            for (int k = 0; k < m->nops && k < 65536; ++k) en[k] = m->enabled(k) ? 1 : 0;
+            have_en = true;
+        }
+        if (en[o]) {
             esx_token_set_last(o);
             V_COUNT("transitions", 1);
             m->apply(o);
